@@ -14,10 +14,14 @@ namespace C03.Wire
 
 /-! ### varints, zig-zag, fixed 64 -/
 
-/-- `binary.PutUvarint` -/
-def uvarint (n : Nat) : List Nat :=
-  if h : n < 128 then [n] else (n % 128 + 128) :: uvarint (n / 128)
-decreasing_by omega
+/-- `binary.PutUvarint`: seven bits at a time, low bits first, the high bit of a byte says "more".
+The fuel is the number of continuation bytes: nine are enough for every `uint64` (the buffer of
+`encoder.uvarint` holds `MaxVarintLen64` = 10 bytes). -/
+def uvarintF : Nat → Nat → List Nat
+  | 0, n => [n]
+  | f + 1, n => if n < 128 then [n] else (n % 128 + 128) :: uvarintF f (n / 128)
+
+def uvarint (n : Nat) : List Nat := uvarintF 9 n
 
 /-- `binary.Uvarint`: the value and the rest of the buffer; `none` = `n <= 0` (buffer too small,
 more than ten bytes, or a tenth byte above 1). `i` = index of the byte, `acc` = bits so far. -/
@@ -77,6 +81,27 @@ inductive Val where
   | opt (o : Option Val)
   deriving Repr, Inhabited
 
+mutual
+/-- equality of values, computable by the kernel (the type is nested, `DecidableEq` is not derived) -/
+def Val.same : Val → Val → Bool
+  | .int a, .int b => a == b
+  | .nat a, .nat b => a == b
+  | .bool a, .bool b => a == b
+  | .f64 a, .f64 b => a == b
+  | .bytes a, .bytes b => a == b
+  | .msg a, .msg b => Val.sames a b
+  | .rep a, .rep b => Val.sames a b
+  | .opt none, .opt none => true
+  | .opt (some a), .opt (some b) => Val.same a b
+  | _, _ => false
+termination_by structural v => v
+def Val.sames : List Val → List Val → Bool
+  | [], [] => true
+  | a :: l, b :: m => Val.same a b && Val.sames l m
+  | _, _ => false
+termination_by structural l => l
+end
+
 /-- numbers travel packed inside one length-delimited entry (encode.go `slice`/`sliceReflect`) -/
 def Ty.packed : Ty → Bool
   | .i32 | .i64 | .u32 | .u64 | .bool | .f64 => true
@@ -93,9 +118,11 @@ def zero : Ty → Val
   | .msg ts => .msg (zeros ts)
   | .rep _ => .rep []
   | .opt _ => .opt none
+termination_by structural t => t
 def zeros : List Ty → List Val
   | [] => []
   | t :: ts => zero t :: zeros ts
+termination_by structural ts => ts
 end
 
 /-! ### encoding -/
@@ -107,6 +134,10 @@ def encPacked : Ty → Val → List Nat
   | .bool, .bool b => uvarint (if b then 1 else 0)
   | .f64, .f64 x => le64 x
   | _, _ => []
+
+def encPackedAll (t : Ty) : List Val → List Nat
+  | [] => []
+  | v :: l => encPacked t v ++ encPackedAll t l
 
 /-- key ‖ length ‖ body -/
 def lenDelim (key : Nat) (body : List Nat) : List Nat := uvarint (key + 2) ++ uvarint body.length ++ body
@@ -125,17 +156,17 @@ def encField (key : Nat) : Ty → Val → List Nat
   | .rep t, .rep l =>
     if t.packed then lenDelim key (encPackedAll t l) else encRep key t l
   | _, _ => []
+termination_by structural _ v => v
 /-- a slice whose elements each get their own entry -/
 def encRep (key : Nat) (t : Ty) : List Val → List Nat
   | [] => []
   | v :: l => encField key t v ++ encRep key t l
-def encPackedAll (t : Ty) : List Val → List Nat
-  | [] => []
-  | v :: l => encPacked t v ++ encPackedAll t l
+termination_by structural l => l
 /-- `encoder.message`: all fields in order, field `id` first -/
 def encMsg (id : Nat) : List Ty → List Val → List Nat
   | t :: ts, v :: vs => encField (id * 8) t v ++ encMsg (id + 1) ts vs
   | _, _ => []
+termination_by structural _ vs => vs
 end
 
 /-! ### decoding -/
@@ -179,17 +210,32 @@ def putScalar : Ty → Nat → Nat → List Nat → Option Val
   | .bytes, wt, _, vb => if wt ≠ 2 then none else some (.bytes vb)
   | _, _, _, _ => none
 
+/-- the wire type of the elements of a packed slice (decode.go:411-436) -/
+def Ty.packedWt : Ty → Nat
+  | .f64 => 1
+  | _ => 0
+
 /-- the loop of `decoder.slice` over a packed buffer; the fuel is its length -/
 def decPacked (t : Ty) : Nat → List Nat → Option (List Val)
   | 0, buf => if buf.isEmpty then some [] else none
   | fuel + 1, buf =>
     if buf.isEmpty then some [] else
-    match parseRaw (if t matches .f64 then 1 else 0) buf with
+    match parseRaw t.packedWt buf with
     | none => none
     | some (v, vb, rest) =>
-      match putScalar t (if t matches .f64 then 1 else 0) v vb with
+      match putScalar t t.packedWt v vb with
       | none => none
       | some x => (decPacked t fuel rest).map (x :: ·)
+
+/-- what a pointer field points to once `putvalue` has instantiated it -/
+def pointee (t : Ty) : Val → Val
+  | .opt (some o) => o
+  | _ => zero t
+
+/-- the elements a slice field holds so far -/
+def elems : Val → List Val
+  | .rep l => l
+  | _ => []
 
 /-- `putvalue` on a field of type `t` that currently holds `old`; `sub` decodes an embedded message
 (the recursion into `message`, supplied by `decMsg`) -/
@@ -197,13 +243,18 @@ def putValue (sub : List Ty → List Nat → Option (List Val)) : Ty → Val →
   | .msg ts, _, wt, _, vb => if wt ≠ 2 then none else (sub ts vb).map .msg
   | .opt t, old, wt, v, vb =>
     -- a nil pointer is instantiated first, then the pointee is filled
-    (putValue sub t (match old with | .opt (some o) => o | _ => zero t) wt v vb).map fun x => .opt (some x)
-  | .rep t, old, wt, v, vb =>
+    (putValue sub t (pointee t old) wt v vb).map fun x => .opt (some x)
+  | .rep t, old, wt, _, vb =>
     if wt ≠ 2 then none else
-    let acc := match old with | .rep l => l | _ => []
-    if t.packed then (decPacked t vb.length vb).map fun xs => .rep (acc ++ xs)
-    else (putValue sub t (zero t) 2 0 vb).map fun x => .rep (acc ++ [x])
-  | t, _, wt, v, vb => putScalar t wt v vb
+    if t.packed then (decPacked t vb.length vb).map fun xs => .rep (elems old ++ xs)
+    else (putValue sub t (zero t) 2 0 vb).map fun x => .rep (elems old ++ [x])
+  | .i32, _, wt, v, vb => putScalar .i32 wt v vb
+  | .i64, _, wt, v, vb => putScalar .i64 wt v vb
+  | .u32, _, wt, v, vb => putScalar .u32 wt v vb
+  | .u64, _, wt, v, vb => putScalar .u64 wt v vb
+  | .bool, _, wt, v, vb => putScalar .bool wt v vb
+  | .f64, _, wt, v, vb => putScalar .f64 wt v vb
+  | .bytes, _, wt, v, vb => putScalar .bytes wt v vb
 
 /-- `decoder.message`, the loop over the entries of a buffer: `cur` = the struct as filled so far,
 `fi` = the field cursor (it only moves forward). The fuel bounds the bytes of the buffer. -/
